@@ -621,3 +621,34 @@ add("S5", "break", CORE, "GroupBy._chunk_offsets", "return np.cumsum(self._group
 add("S3b", "break", CORE, INIT, "            self._group_key_pointers = group_keys._group_key_pointers\n", "", also=((CORE, INIT, "        if isinstance(group_keys, GroupBy):", "        self._group_key_pointers = None\n        if isinstance(group_keys, GroupBy):"),), name="S3b pointer tables defaulted before the copy branch, not copied")
 add("L1", "break", UTIL, ARGS, "    return pd.core.sorting.lexsort_indexer(codes_for_sorting)", "    if index.is_monotonic_increasing:\n        return slice(None)\n    return pd.core.sorting.lexsort_indexer(codes_for_sorting)", name="L1 multi-level shortcut on pandas monotonicity")
 add("A1", "break", CORE, "GroupBy.ema", "        value_names, value_list, type_list, common_index = self._preprocess_arguments(values, mask)\n", "        if mask is not None:\n            mask = np.asarray(mask)\n        value_names, value_list, type_list, common_index = self._preprocess_arguments(values, mask)\n", name="A1 mask re-bound to an index-free array before validation", expect_func="*")
+
+# --------------------------------------------------------------------------------------------- NV1 / ND1 / PC1
+add("NV1", "break", NANOPS, "nanvar", "return (sum_sq - sum ** 2 / n) / d", "return (sum_sq / n - sum ** 2 / n) / d", name="NV1 sum of squares divided too")
+add("NV1", "break", NANOPS, "nanvar", "return (sum_sq - sum ** 2 / n) / d", "return (sum_sq - sum ** 2 / n) / n", name="NV1 ddof ignored in the denominator")
+add("NV1", "break", NANOPS, "nanvar", "d = n - ddof", "d = n + ddof", name="NV1 ddof added")
+add("NV1", "break", NANOPS, "nanvar", "n = count(arr, axis=axis)", "n = count(arr)", name="NV1 count over the whole array instead of the axis")
+add("NV1", "break", NANOPS, "nanvar", "sum = reduce(reduce_func_name='sum', **kwargs)", "sum = reduce(reduce_func_name='sum', arr=arr, axis=axis)", name="NV1 sum ignores skipna / threads of the caller")
+add("NV1", "break", NANOPS, "nanvar", "sum = reduce(reduce_func_name='sum', **kwargs)", "sum = reduce(reduce_func_name='max', **kwargs)", name="NV1 wrong primitive")
+add("NV1", "break", NANOPS, "nanmean", "return sum / n", "return sum / len(arr)", name="NV1 mean divides by the length, nulls included")
+add("NV1", "break", NANOPS, "nanmean", "sum = nansum(**locals())", "sum = nansum(arr, axis=axis, n_threads=n_threads)", name="NV1 mean drops skipna")
+add("NV1", "break", NANOPS, "nanstd", "nanvar(**locals()) ** 0.5", "nanvar(**locals()) ** 2", name="NV1 std squares")
+add("NV1", "break", NANOPS, "nanstd", "nanvar(**locals()) ** 0.5", "nanvar(arr, skipna=skipna, min_count=min_count, axis=axis, n_threads=n_threads) ** 0.5", name="NV1 std drops ddof")
+add("NV1", "keep", NANOPS, "nanvar", "return (sum_sq - sum ** 2 / n) / d", "return (-(sum * sum / n) + sum_sq) / d", name="NV1 commuted, s*s")
+add("NV1", "keep", NANOPS, "nanvar", "d = n - ddof\n", "d = -ddof + n\n", name="NV1 denominator commuted")
+add("NV1", "keep", NANOPS, "nanstd", "return nanvar(**locals()) ** 0.5", "v = nanvar(arr, skipna=skipna, min_count=min_count, axis=axis, n_threads=n_threads, ddof=ddof)\n    return np.sqrt(v)", name="NV1 explicit keywords, np.sqrt")
+add("NV1", "keep", NANOPS, "nanmean", "return sum / n", "mean = sum / n\n    return mean", name="NV1 mean in a local")
+
+add("ND1", "break", UTIL, "_nb_dot", "out[row] += a[col][row] * b[col]", "out[row] += a[col][row] * b[row]", name="ND1 vector indexed by the row")
+add("ND1", "break", UTIL, "_nb_dot", "out[row] += a[col][row] * b[col]", "out[row] = a[col][row] * b[col]", name="ND1 overwrite instead of accumulate")
+add("ND1", "break", UTIL, "_nb_dot", "for col in nb.prange(len(b)):", "for col in nb.prange(len(b) - 1):", name="ND1 last column skipped")
+add("ND1", "break", UTIL, "nb_dot", "out=np.zeros(len(a), dtype=return_type)", "out=np.empty(len(a), dtype=return_type)", name="ND1 uninitialised output")
+add("ND1", "break", UTIL, "nb_dot", "arr_list = a.T", "arr_list = a", name="ND1 rows handed over as columns")
+add("ND1", "keep", UTIL, "_nb_dot", "out[row] += a[col][row] * b[col]", "out[row] += b[col] * a[col][row]", name="ND1 factors commuted")
+add("ND1", "keep", UTIL, "_nb_dot", "for col in nb.prange(len(b)):", "for col in range(len(b)):", name="ND1 plain range")
+add("ND1", "keep", UTIL, "nb_dot", "out = _nb_dot(arr_list, np.asarray(b), out=np.zeros(len(a), dtype=return_type))", "zeros = np.zeros(len(a), dtype=return_type)\n        out = _nb_dot(arr_list, np.asarray(b), zeros)", name="ND1 output in a local, positional")
+
+add("PC1", "break", UTIL, "pretty_cut", "codes = numeric_bins.searchsorted(x)", "codes = numeric_bins.searchsorted(x, side='right')", name="PC1 side right")
+add("PC1", "break", UTIL, "pretty_cut", "    if not is_integer:\n        codes[pd.Series(x).isnull()] = -1\n", "", name="PC1 nulls fall into the last bin")
+add("PC1", "break", UTIL, "pretty_cut", "labels = [f' <= {bins[0]}']", "labels = []", name="PC1 head label missing")
+add("PC1", "keep", UTIL, "pretty_cut", "codes = numeric_bins.searchsorted(x)", "codes = np.searchsorted(numeric_bins, x, side='left')", name="PC1 np.searchsorted explicit left")
+add("PC1", "keep", UTIL, "pretty_cut", "labels = [f' <= {bins[0]}']", "labels = []\n    labels.append(f' <= {bins[0]}')", name="PC1 head appended")
